@@ -224,7 +224,9 @@ def gen_handshake(rng) -> Case:
 def gen_store(rng) -> Case:
     ops = []
     c = rid(rng, "cd")
-    size = rng.choice([0, 1, 4096, 2 ** 32 - 1, 2 ** 32, U64 - 1, rng.randrange(0, 2 ** 40)])
+    size = rng.choice([0, 1, 5, 4096, 2 ** 31, 2 ** 32 - 2, 2 ** 32 - 1, 2 ** 32, 2 ** 32 + 1, 2 ** 32 + 5, 2 ** 33, 2 ** 33 + 4096,
+                       2 ** 40, 2 ** 63 - 1, 2 ** 63, 2 ** 63 + 1, U64 - 2 ** 32, U64 - 2, U64 - 1,
+                       rng.randrange(0, 2 ** 40), rng.randrange(2 ** 32, U64)])
     hint = rng.choice([b"", b"a.txt", b"a\rb.txt", bytes([0xC3, 0xA9]) + b".bin", rbytes(rng, 255), rbytes(rng, 256), rbytes(rng)])
     d = rdiff_small(rng)
     ops.append(f"store {c} {size} {hx(hint)} {rnonce(rng)} {rng.choice(DIFFS)}")
@@ -232,6 +234,10 @@ def gen_store(rng) -> Case:
         n = aim(rng, lambda x: enc_store(c, size, hint, x), want)
         if n is not None:
             ops.append(f"store {c} {size} {hx(hint)} {n} {d}")
+            # work solved for size S must not be taken for S + k*2^32 (every byte of the 64-bit size is bound)
+            for other in {(size + 2 ** 32) % U64, (size + 2 ** 33) % U64, size ^ (1 << 63), size % 2 ** 32}:
+                if other != size and d > 0:
+                    ops.append(f"store {c} {other} {hx(hint)} {n} {d}")
     if rng.random() < 0.7:
         ops.append(f"storesolve {c} {size} {hx(hint)} {d} {rng.choice([0, 0, 500000, 1, 3, 50])}")
     # binding: hint bytes vs. neighbouring fields
